@@ -91,6 +91,23 @@ func vfHasDupNames(hs []*conformancev1.Header) bool {
 	return false
 }
 
+// vfReencodeAny returns the same message in another valid wire encoding: the length of its first
+// (length-delimited) field is written as a non-minimal two-byte varint. nil when that is not possible.
+func vfReencodeAny(d *anypb.Any) *anypb.Any {
+	b := d.GetValue()
+	if len(b) < 2 || b[0]&0x80 != 0 || b[0]&7 != 2 || b[1]&0x80 != 0 {
+		return nil
+	}
+	nb := append([]byte{b[0], b[1] | 0x80, 0x00}, b[2:]...)
+	re := &anypb.Any{TypeUrl: d.TypeUrl, Value: nb}
+	m1, err1 := d.UnmarshalNew()
+	m2, err2 := re.UnmarshalNew()
+	if err1 != nil || err2 != nil || !proto.Equal(m1, m2) {
+		return nil
+	}
+	return re
+}
+
 func vfFlipCase(s string) string {
 	b := []byte(s)
 	for i := range b {
@@ -431,6 +448,15 @@ func vfExerciseExpected(rep *verifkit.Report, tc *conformancev1.TestCase, desc s
 			c.mustPass("unspecified-message", a)
 			combined.Error.Message = proto.String("whatever")
 		}
+		// details are messages: the same detail in another valid wire encoding (a length written as a
+		// two-byte varint) is the same detail
+		for i, d := range E.Error.Details {
+			if re := vfReencodeAny(d); re != nil {
+				a := vfCloneRes(E)
+				a.Error.Details[i] = re
+				c.mustPass("detail-in-another-valid-encoding", a)
+			}
+		}
 	}
 	for _, ref := range vfReqInfos(E) {
 		ri := ref.get(E)
@@ -737,6 +763,14 @@ func vfExerciseExpected(rep *verifkit.Report, tc *conformancev1.TestCase, desc s
 				nh[hi].Value[vi] = nh[hi].Value[vi] + "x"
 				hl.set(a, nh)
 				c.mustFail(kind+"-value-altered", a, lname)
+				// field values are case-sensitive (only names are not)
+				if flipped := vfFlipCase(h.Value[vi]); flipped != h.Value[vi] {
+					a = vfCloneRes(E)
+					nh = vfCloneHeaders(hs)
+					nh[hi].Value[vi] = flipped
+					hl.set(a, nh)
+					c.mustFail(kind+"-value-letter-case-changed", a, lname)
+				}
 				if len(h.Value) > 1 {
 					a = vfCloneRes(E)
 					nh = vfCloneHeaders(hs)
